@@ -344,6 +344,8 @@ async def _run_history(
         if "before_rx" in hooks:
             hooks["before_rx"](rec, gateway, transport, model)
         receive = listener.next(line) if listener is not None else env.rx(gateway, line)
+        if case.get("tasks"):
+            receive = asyncio.ensure_future(receive)  # every message handled in a task of its own (nothing may live in the task's context)
         if case.get("rx_timeout"):
             # the application bounds every receive with a timeout (virtual time): a hung write ends in a cancellation
             try:
@@ -484,6 +486,7 @@ async def _run_history(
                 classes["diverged-elsewhere"] += 1
                 return None, info
             classes["time-reply"] += 1
+        elsewhere = False
         if Counter(rest) != Counter(expected_rest):
             if "writes" in aspects:
                 missing = Counter(expected_rest) - Counter(rest)
@@ -498,9 +501,7 @@ async def _run_history(
                 else:
                     sig = f"reaction:{'missing' if missing else 'extra'}:{mk}"
                 return bad(sig, f"wrote {rest!r}, expected {expected_rest!r}", idx), info
-            info["diverged"] = True
-            classes["diverged-elsewhere"] += 1
-            return None, info
+            elsewhere = True  # not this property's aspect: its own aspects are still judged for this step, then the history stops
         if expected_rest:
             classes["step-with-reaction-or-flush"] += 1
 
@@ -527,6 +528,13 @@ async def _run_history(
             classes["presreq-written"] += 1
         elif rec.outcome in ("missing_node", "missing_child") and model.is2x:
             classes["presreq-suppressed"] += 1
+
+        if elsewhere:
+            if query_owed_but_missing():
+                return bad(f"version-query:missing:{mk}", "no version query although the version is unknown (and other writes of the step differ from the model)", idx), info
+            info["diverged"] = True
+            classes["diverged-elsewhere"] += 1
+            return None, info
 
         # -- commit and compare post-state ---------------------------------
         model.commit(pred, rec.outcome, observed)
